@@ -324,7 +324,12 @@ def gen_spec(rng: random.Random, feat=None):
                 if 'excluded_tasks' in pdata:
                     other['excluded_tasks'] = list(pdata['excluded_tasks'])
                 pdata['main_part'] = True
-                files[fname] = {'multi': True, 'parts': {part: pdata, 'alt': other}}
+                if rng.random() < 0.4:
+                    # the other part says explicitly that it is NOT the main one, and is listed first
+                    other['main_part'] = False
+                    files[fname] = {'multi': True, 'parts': {'alt': other, part: pdata}}
+                else:
+                    files[fname] = {'multi': True, 'parts': {part: pdata, 'alt': other}}
     # ---- `#part` references: embed a used config as another part of the using file -------------------------------
     if feat['multi_config']:
         for fname in list(files):
